@@ -24,14 +24,14 @@ import logging
 from ...encoding import BinaryStr, SignaturePtrs, FormalName, parse_data, Name
 from ...app import NDNApp, Validator
 from ...security import union_checker
-from ...security.validator.cascade_validator import CascadeChecker, PublicKeyStorage, MemoryKeyStorage
+from ...security.validator.cascade_validator import CascadeChecker, PublicKeyStorage
 from .checker import Checker
 
 __all__ = ['lvs_validator']
 
 
 def lvs_validator(checker: Checker, app: NDNApp, trust_anchor: BinaryStr,
-                  storage: PublicKeyStorage = MemoryKeyStorage()) -> Validator:
+                  storage: PublicKeyStorage | None = None) -> Validator:
     async def validate_name(name: FormalName, sig_ptrs: SignaturePtrs) -> bool:
         if (not sig_ptrs.signature_info or not sig_ptrs.signature_info.key_locator
                 or not sig_ptrs.signature_info.key_locator.name):
